@@ -25,7 +25,11 @@ def stdLenOf : Nat → Option Nat
 def hex16 (m : Nat) : String :=
   String.ofList ((List.range 16).map fun j => hexDigit ((m / 16 ^ (15 - j)) % 16))
 
-def showSlot (s : Slot) : String := s!"{s.nc}:{hex16 s.nmask.toNat}:{hexOfBytes s.nonce}"
+/-- canonical form (same as the harness): mask bits at positions ≥ nc are never read;
+    the buffer is shown up to the first NUL -/
+def showSlot (s : Slot) : String :=
+  let m := if s.nc < 64 then s.nmask.toNat % 2 ^ s.nc else s.nmask.toNat
+  s!"{s.nc}:{hex16 m}:{hexOfBytes (s.nonce.takeWhile (· != 0))}"
 
 def U64 : Nat := 2 ^ 64
 
